@@ -13,6 +13,9 @@ from elexmodel.logger import getModelLogger
 from elexmodel.models import BaseElectionModel
 
 warnings.filterwarnings("error", category=UserWarning, module="cvxpy")
+# newer cvxpy versions attribute their warnings to the module that called cvxpy (ie. elexsolver), where the filter above
+# does not apply, so also select the inaccurate solution warning by its message
+warnings.filterwarnings("error", message="Solution may be inaccurate", category=UserWarning)
 
 PredictionIntervals = namedtuple("PredictionIntervals", ["lower", "upper", "conformalization"], defaults=(None,) * 3)
 
